@@ -511,7 +511,7 @@ pub fn run_scheduled(case: &ParCase, o: &Oracle, primals: Vec<(isize, Vec<ddo::D
 
 fn report(s: &Arc<Sched>) -> SchedReport {
     let g = s.m.lock().unwrap();
-    let tail: Vec<_> = g.trace.iter().rev().take(40).rev().cloned().collect();
+    let tail: Vec<_> = g.trace.iter().rev().take(if std::env::var("VERIF_FULL_TRACE").is_ok() { 100000 } else { 40 }).rev().cloned().collect();
     SchedReport {
         stuck: g.stuck.clone(),
         worker_panicked: g.worker_panicked,
